@@ -8,6 +8,7 @@
 #include <stdint.h>
 #include <unistd.h>
 #include <pthread.h>
+#include <execinfo.h>
 static int hexv(int c) { return c <= '9' ? c - '0' : (c | 32) - 'a' + 10; }
 
 #define MAXLIVE 65536
@@ -22,6 +23,10 @@ static void *my_alloc(void *opaque, size_t nmemb, size_t size)
 	size_t sz = nmemb * size;
 	void *p = malloc(sz ? sz : 1);
 	if (p && nlive < MAXLIVE) { live[nlive].p = p; live[nlive].sz = sz; nlive++; live_bytes += sz; if (live_bytes > peak_bytes) peak_bytes = live_bytes; }
+	{ static int dumped; const char *dl = getenv("VERIF_DUMP_ABOVE");   // debugging aid: where does the excess come from
+	  if (dl && !dumped && live_bytes > (size_t)atoll(dl)) { dumped = 1; fprintf(stderr, "LIVE %zu:", live_bytes);
+	    for (size_t q = 0; q < nlive; q++) if (live[q].sz > 100000) fprintf(stderr, " %zu", live[q].sz); fprintf(stderr, "\n");
+	    void *bt[24]; int nb = backtrace(bt, 24); backtrace_symbols_fd(bt, nb, 2); } }
 	pthread_mutex_unlock(&mu);
 	return p;
 }
